@@ -73,7 +73,7 @@ pub const NUMS: &[f64] = &[
 ];
 pub const STRS: &[&str] = &[
     "", "a", "hello world", "multi\nline", "ünï", "5", " padded ", "true", "it's", "(paren)", "a, b & c", "null", "1e3",
-    "x\ty", "mysterious", "say 5", ".", "-1", "ab1", "tab\there", "two\n\nblank",
+    "x\ty", "mysterious", "say 5", ".", "-1", "ab1", "tab\there", "two\n\nblank", "ends in a break\n", "\n", "\n\nstarts with two", "dos\r\nbreak\r\n",
 ];
 pub const POETIC_WORDS: &[&str] = &[
     "a", "an", "the", "lovestruck", "ladykiller", "rock", "roll", "sweet", "desire", "fire", "ice", "cold", "heartbreaker",
